@@ -326,7 +326,7 @@ func ruleC24(c *Ctx) {
 		c.Require("batchatomic", fname(f)+": UTXO changes and wallet status commit in one batch", writes == 1 && direct == "" && nb == 1, "%d batch(es), %d commit(s), direct mutation: %s", nb, writes, direct)
 		sc := c.ScopeFunc(f)
 		if fn == "(*Wallet).AttachBlock" {
-			sc = c.ScopeIf(f, "block extends the wallet's work hash", 1, readsField("wallet.StatusInfo", "WorkHash"), readsField(tBH, "PreviousBlockHash"))
+			sc = c.ScopeWhen(f, "block extends the wallet's work hash", "field:"+tBH+".PreviousBlockHash == field:wallet.StatusInfo.WorkHash")
 		}
 		c.RequireCall("mustpass", sc, true, "(*wallet.Wallet).commitWalletInfo")
 	}
